@@ -68,6 +68,26 @@ def cases(rng, tier):
             return f[:4]
         idx += 1
         yield Case("o%d" % idx, lines, oracle=oracle, meta={"evals": len(pairs), "dist": {"kind": "obj_eq", "type": ty}})
+    # values that are equal as numbers and differ as bits (signed zeros, NaNs of either sign and payload): equality is by content
+    for ty, twins in ((4, ["00000000", "00000080", "0000c07f", "0100c07f", "0000c0ff", "0000803f"]),
+                      (5, ["0000000000000000", "0000000000000080", "000000000000f87f", "010000000000f87f", "000000000000f8ff", "000000000000f03f"])):
+        pool = [(ty, [bytes.fromhex(x)]) for x in twins] + [(ty, [bytes.fromhex(twins[0]), bytes.fromhex(twins[1])]), (ty, [bytes.fromhex(twins[1]), bytes.fromhex(twins[0])])]
+        lines = [obj_line(i + 1, t, el) for i, (t, el) in enumerate(pool)]
+        n = len(pool)
+        pairs = [(i, j) for i in range(n) for j in range(n)]
+        start = len(lines)
+        lines += ["oeq %d %d" % (i + 1, j + 1) for (i, j) in pairs]
+
+        def oracle(c, pool=pool, pairs=pairs, start=start):
+            f = []
+            for k, (i, j) in enumerate(pairs):
+                want = "1" if pool[i][1] == pool[j][1] else "0"
+                got = c.val(start + k + 1)
+                if got != want:
+                    f.append("obj_eq(%s, %s) = %s, content says %s" % ((pool[i][0], [x.hex() for x in pool[i][1]]), (pool[j][0], [x.hex() for x in pool[j][1]]), got, want))
+            return f[:4]
+        idx += 1
+        yield Case("ft%d" % idx, lines, oracle=oracle, meta={"evals": len(pairs), "dist": {"kind": "obj_eq", "type": ty, "twins": "float"}})
     # comparison helpers: exhaustive small scope
     alpha = [0, 1, 0x41, 0x7f, 0x80, 0xff]
     maxlen = {"quick": 2, "thorough": 3, "search": 2}[tier]
